@@ -77,3 +77,10 @@ Example C15_example :
                   ATick 4000; ALease 1 3600 false; AApply 1]) =
   [RNone; RNone; RAcquired; RFailed; RRefused; RNone; RNone; RAcquired].
 Proof. vm_compute. reflexivity. Qed.
+
+(* every remaining property theorem of this file *)
+Print Assumptions C15_invariant_init.
+Print Assumptions C15_worker_invariant_init.
+Print Assumptions C15_worker_flag_means_lease.
+Print Assumptions C15_worker_flag_down_on_error.
+Print Assumptions C15_worker_flag_down_on_refusal.
